@@ -14,6 +14,9 @@ Cells are also left-handed; isobaric / isotension simulations also get their mov
 with molecular and frozen labels; settings are also assigned as numpy scalars and 0-d arrays; the Hamiltonian oracle
 takes its reference kinetic energy from a recorder on entry to the integrator (every trajectory, so also the one tried
 again after a vetoed one), never from the context.
+In the hand-driven simulations the reference cell and energy are recorded by the workload when each trial starts (an
+independent evaluation of the configuration the trial starts from); a quarter of the isobaric / isotension ones have
+their box rescaled by the user between run calls.
 """
 from __future__ import annotations
 
@@ -36,7 +39,7 @@ ASSUMPTIONS = [
     "calls with |log u - log A| < 1e-9 relative are counted as undecidable (probability ~1e-9 per call)",
     "thermal wavelength from ase.units CODATA constants: h / sqrt(2 pi m kT)",
 ]
-REQUIRED = {"simulations_with_constructor_default_moves": 20, "judged:canonical": 500, "judged:hamiltonian": 100, "judged:hamiltonian:after-a-vetoed-trajectory": 10, "hamiltonian_reference_from_trajectory_start": 100, "judged:isobaric": 300, "judged:isotension": 300, "judged:grand:insert": 150, "judged:grand:delete": 150, "judged:grand:delete-at-zero": 5, "judged_beyond_exp_range": 300, "u_identified": 1500, "parameter_changes": 500, "passive_simulations": 60}
+REQUIRED = {"cells_rescaled_between_run_calls": 20, "references_recorded_at_trial_start": 2000, "simulations_with_constructor_default_moves": 20, "judged:canonical": 500, "judged:hamiltonian": 100, "judged:hamiltonian:after-a-vetoed-trajectory": 10, "hamiltonian_reference_from_trajectory_start": 100, "judged:isobaric": 300, "judged:isotension": 300, "judged:grand:insert": 150, "judged:grand:delete": 150, "judged:grand:delete-at-zero": 5, "judged_beyond_exp_range": 300, "u_identified": 1500, "parameter_changes": 500, "passive_simulations": 60}
 SHARD_TIMEOUT = {"quick": 900, "thorough": 3000}
 
 
@@ -97,6 +100,7 @@ def run_sim(rec, spec, rng, i):
     from quansino.moves.exchange import ExchangeMove
 
     ens = spec["ens"]
+    outside_edits = False
     seed = derive_seed("c02", spec["seed"], spec["name"], i)
     amp = float(10 ** rng.uniform(-12, 6))
     n = int(rng.integers(1, 6))
@@ -130,6 +134,9 @@ def run_sim(rec, spec, rng, i):
         edge = float(10 ** rng.uniform(-1, 3))
         atoms = make_atoms(rng, n, edge, sheared=bool(rng.random() < 0.6))
         atoms.calc = Prescribed(energy=hash_energy(amp))
+        outside_edits = i % 4 == 3
+        if outside_edits:
+            atoms.calc = Prescribed(energy=float(rng.normal()))  # a constant: see the rescaling between run calls below
         P = float(rng.choice([-1, 1]) * 10 ** rng.uniform(-6, 1)) if rng.random() < 0.9 else 0.0
         opk = int(rng.integers(0, 3))
         op = [oc.IsotropicDeformation, oc.AnisotropicDeformation, oc.ShapeDeformation][opk](float(10 ** rng.uniform(-3, -0.5)))
@@ -215,8 +222,23 @@ def run_sim(rec, spec, rng, i):
         if ens.startswith("iso") and metropolis.degenerate_cell(mc.context):
             rec.count("simulations_ended_cell_degenerated")  # random walk of the cell left the domain: start a new simulation
             break
+        if outside_edits and rng.random() < 0.3:
+            # the user rescales the box between two run calls (another density); the model energy is constant, so nothing
+            # else the simulation remembers is affected
+            atoms.set_cell(atoms.cell.array * float(rng.uniform(0.7, 1.4)), scale_atoms=True)
+            rec.count("cells_rescaled_between_run_calls")
         try:
-            mc.run(1)
+            for step_ in mc.irun(1):
+                for _name in step_:
+                    # a trial is about to start: the workload's own record of the configuration it starts from
+                    it_ = metropolis.INTENT.get(id(mc.context))
+                    if it_ is not None:
+                        it_["cell_ref"] = np.array(mc.atoms.cell.array, copy=True)
+                        efn = getattr(mc.atoms.calc, "energy", None)
+                        if callable(efn):
+                            it_["e_ref"] = float(efn(mc.atoms))
+                        elif isinstance(efn, float):
+                            it_["e_ref"] = efn
         except Exception as ex:  # noqa: BLE001
             rec.count("simulation_aborted")
             rec.data.setdefault("aborts", []).append(f"{ens}: {type(ex).__name__}: {str(ex)[:120]}")
